@@ -138,7 +138,7 @@ func (cr *caseRun) emitTc(out *hlib.Out) {
 	}
 	for s := range tcSigs {
 		if usedS[s] {
-			sigs = append(sigs, hlib.App("SGT", hlib.N(uint64(s)), hlib.Z(tcSigs[s].Ty), hlib.Bool(tcSigs[s].Okv)))
+			sigs = append(sigs, hlib.App("SGT", hlib.N(uint64(s)), hlib.Z(tcSigs[s].Ty), hlib.Bool(tcSigs[s].Okv), hlib.Bool(tcSigs[s].Fok)))
 		}
 	}
 	for x, t := range in.Objs {
@@ -249,7 +249,7 @@ func genTcHist(r *hlib.Rng, level int, n int) ([]int, []Op) {
 // same sign types on both sides of the enable heights (bare and wrapped, a new
 // wrapper per call: single use).
 func genSignHist(r *hlib.Rng, n int) ([]int, []Op) {
-	pool := []int{0, 2, 5, 6, 9, 10, 11, 12, 13, 14, 21, 22, 23, 34, 7}
+	pool := []int{0, 2, 5, 6, 9, 10, 11, 12, 13, 14, 21, 22, 23, 34, 7, 35, 36, 37}
 	var objs []int
 	var ops []Op
 	for len(ops) < n {
